@@ -417,7 +417,11 @@ class ChangeToData:
         return (change.resource.path, change.new_contents, change.old_contents)
 
     def convertMoveResource(self, change):
-        return (change.resource.path, change.new_resource.path)
+        return (
+            change.resource.path,
+            change.new_resource.path,
+            change.resource.is_folder(),
+        )
 
     def convertCreateResource(self, change):
         return (change.resource.path, change.resource.is_folder())
@@ -447,8 +451,11 @@ class DataToChange:
         resource = self.project.get_file(path)
         return ChangeContents(resource, new_contents, old_contents)
 
-    def makeMoveResource(self, old_path, new_path):
-        resource = self.project.get_file(old_path)
+    def makeMoveResource(self, old_path, new_path, is_folder=False):
+        if is_folder:
+            resource = self.project.get_folder(old_path)
+        else:
+            resource = self.project.get_file(old_path)
         return MoveResource(resource, new_path, exact=True)
 
     def makeCreateResource(self, path, is_folder):
